@@ -66,6 +66,7 @@ type loopInfo struct {
 	ordinal int
 	writes  map[string]bool
 	all     bool
+	preserve []string
 	// evaluation of candidates: functions from (phi substitution, state) to formula
 	cands []func(sub map[ssa.Value]*Val, st State) string
 	cidx  []int // index into Enc.cands
@@ -102,10 +103,15 @@ type Enc struct {
 	prop     string // property being checked ("" = sweep: everything active)
 	safety   bool   // safety obligations of this function are owned by prop
 	assumes  []string
+	pendingFrame map[string]string
+	pendingOld   map[string]string
+	quantWF   bool
+	preserved map[int]*preserveInfo
 	merges   map[int]*mergeInfo
 	dyn      map[ssa.Value]types.Type // interface-typed parameters specialised to a dynamic type
 	spec     map[string]string        // parameter name -> type string (from the property config)
 	litOf       map[string]string // SMT symbol of a string literal -> its Go value
+	storeOrd    map[*ssa.Store]int
 	callRegion  int
 	siteOrd     map[*ssa.Call]int
 	lastOrd     map[string]int
@@ -280,10 +286,22 @@ func (e *Enc) obligeClause(kind string, c *Clause, pos token.Pos, goal string) *
 
 // ---------------- heap arrays ----------------
 
+// touch materialises the frame axiom of an array incarnation the first time the incarnation is used.
+func (e *Enc) touch(sym string) string {
+	if ax, ok := e.pendingFrame[sym]; ok {
+		delete(e.pendingFrame, sym)
+		e.assume(ax)
+		if old, ok := e.pendingOld[sym]; ok {
+			e.touch(old)
+		}
+	}
+	return sym
+}
+
 func (e *Enc) arr(st *State, name, elemSort string) string {
 	arrSorts[name] = "(Array Ref " + elemSort + ")"
 	if s, ok := st.m[name]; ok {
-		return s
+		return e.touch(s)
 	}
 	nm := fmt.Sprintf("%s@E%d", name, st.epoch)
 	first := !e.declared[strings.ReplaceAll(nm, "|", ":")]
@@ -306,6 +324,31 @@ func (e *Enc) setArr(st *State, name, elemSort, newTerm string) {
 // havocAll forgets the whole heap model (a call into unknown code) - except for the contents of objects that this
 // function allocated itself and whose address has not been handed out yet: no other code can reach them.
 func (e *Enc) havocAll(st *State) { e.havocAllExcept(st, nil) }
+
+// havocAllPreserving: a call into unknown code that is declared (contract / assumed callback or interface contract)
+// to leave the arrays with the given name prefixes alone.
+func (e *Enc) havocAllPreserving(st *State, prefixes []string) {
+	if len(prefixes) == 0 {
+		e.havocAll(st)
+		return
+	}
+	pre := st.clone()
+	e.havocAll(st)
+	for n, t := range pre.m {
+		for _, p := range prefixes {
+			if strings.HasPrefix(n, p) {
+				st.m[n] = t
+			}
+		}
+	}
+	e.preserved[st.epoch] = &preserveInfo{pre: pre, prefixes: prefixes}
+}
+
+type preserveInfo struct {
+	pre      State
+	prefixes []string
+	except   map[string]bool
+}
 
 func (e *Enc) havocAllExcept(st *State, alsoWritten map[string]bool) {
 	pre := st.clone()
@@ -412,6 +455,9 @@ func (e *Enc) havocArr(st *State, name, elemSort string) {
 // wfArray states heap well-formedness for a fresh incarnation of a slice-header leaf array: lengths, offsets and
 // capacities stored in the heap are those of bit-valid slices.
 func (e *Enc) wfArray(name, sym string) {
+	if !e.quantWF {
+		return // heap well-formedness is stated per load (ground facts), see wfLoaded
+	}
 	if arrSorts[name] != "(Array Ref Int)" {
 		return
 	}
@@ -421,6 +467,20 @@ func (e *Enc) wfArray(name, sym string) {
 }
 
 func structKey(t types.Type) string { return typeKey(t) }
+
+// wfLoaded: a value read from the heap is a bit-valid Go value (slice headers, integer ranges) - the ground form of
+// heap well-formedness, stated once per distinct loaded term.
+func (e *Enc) wfLoaded(v *Val) *Val {
+	if v == nil || len(v.c) == 0 {
+		return v
+	}
+	key := "wfld:" + strings.Join(v.c, ",")
+	if !e.declared[key] {
+		e.declared[key] = true
+		e.wellFormedVal(v)
+	}
+	return v
+}
 
 // loadAt reads a value of type t stored at object ref.
 func (e *Enc) loadAt(st *State, ref string, t types.Type) *Val {
@@ -769,7 +829,9 @@ func (e *Enc) mergeStates(b *ssa.BasicBlock, preds []*ssa.BasicBlock) State {
 		same := true
 		for _, p := range preds {
 			ps := e.endState[p]
-			if _, has := ps.m[n]; !has && strings.HasPrefix(n, "G|") {
+			if _, has := ps.m[n]; !has && n == "G|wm" {
+				incs = append(incs, "|alloc!0|")
+			} else if !has && strings.HasPrefix(n, "G|") {
 				incs = append(incs, "false")
 			} else {
 				incs = append(incs, e.arrRaw(&ps, n, srt))
@@ -806,7 +868,7 @@ var arrSorts = map[string]string{}
 func (e *Enc) arrSort(name string) string { return arrSorts[name] }
 func (e *Enc) arrRaw(st *State, name, fullSort string) string {
 	if s, ok := st.m[name]; ok {
-		return s
+		return e.touch(s)
 	}
 	return e.epochArr(st, name, fullSort)
 }
@@ -822,6 +884,20 @@ func (e *Enc) epochArr(st *State, name, fullSort string) string {
 	}
 	sym := e.declare(nm, fullSort)
 	arrSorts[name] = fullSort
+	if pi, ok := e.preserved[st.epoch]; ok {
+		for _, p := range pi.prefixes {
+			if strings.HasPrefix(name, p) && !pi.except[name] {
+				var inc string
+				if x, ok := pi.pre.m[name]; ok {
+					inc = x
+				} else {
+					inc = e.epochArr(&pi.pre, name, fullSort)
+				}
+				e.assume(eq(sym, inc))
+				return sym
+			}
+		}
+	}
 	if _, ok := e.merges[st.epoch]; !ok {
 		e.wfArray(name, sym)
 	}
